@@ -8,6 +8,7 @@
   engine tasks terminate and that nothing panics is measured by the failure-injection runs.
 -/
 import Amqp.FailProp
+import Theorems.PendingDetach
 import Theorems.C12
 
 namespace Amqp.FailProp
